@@ -117,6 +117,34 @@ class _Global(ast.NodeTransformer):
             else:
                 res.append(st)
             i += 1
+        # G12: `x = A` (constants) directly followed by `if c: x = B` (only such assignments, no else) -> `x = B if c else A`
+        i = 0
+        while i < len(res):
+            st = res[i]
+            if isinstance(st, ast.If) and not st.orelse and st.body and all(
+                    isinstance(b, ast.Assign) and len(b.targets) == 1 and isinstance(b.targets[0], ast.Name) for b in st.body) and _is_pure(st.test):
+                names = [b.targets[0].id for b in st.body]
+                k = len(names)
+                prev = res[i - k:i] if i >= k else []
+                tnames = {x.id for x in ast.walk(st.test) if isinstance(x, ast.Name)}
+
+                def tgt_val(p):
+                    if isinstance(p, ast.Assign) and len(p.targets) == 1 and isinstance(p.targets[0], ast.Name):
+                        return p.targets[0].id, p.value
+                    if isinstance(p, ast.AnnAssign) and isinstance(p.target, ast.Name) and p.value is not None:
+                        return p.target.id, p.value
+                    return None, None
+                inits = dict(tgt_val(p) for p in prev)
+                body_reads = {x.id for b in st.body for x in ast.walk(b.value) if isinstance(x, ast.Name)}
+                if len(prev) == k and len(set(names)) == k and set(inits) == set(names) and all(isinstance(v, ast.Constant) for v in inits.values()) \
+                        and not (set(names) & tnames) and not (set(names) & body_reads):
+                    new_sts = []
+                    for b in st.body:
+                        new_sts.append(ast.copy_location(ast.Assign(targets=[b.targets[0]], value=ast.IfExp(test=copy.deepcopy(st.test), body=b.value, orelse=inits[b.targets[0].id])), b))
+                    res[i - k:i + 1] = new_sts
+                    i = i - k + len(new_sts)
+                    continue
+            i += 1
         # G8: `for T in I: if C: return <b>` directly followed by `return <not b>` -> `return any/all(... for T in I)`
         for i in range(len(res) - 1):
             lp, nxt = res[i], res[i + 1]
@@ -244,6 +272,29 @@ class _Global(ast.NodeTransformer):
             c.body = self._block(c.body)
         # expressions are left alone
         return node
+
+    def visit_FunctionDef(self, n):
+        self.generic_visit(n)
+        # G13: in a function that only ever returns None: `if c: return` followed by the rest of the body -> `if not c: <rest>`
+        vals = [r for r in _walk_fn(n) if isinstance(r, ast.Return)]
+        if all(r.value is None or (isinstance(r.value, ast.Constant) and r.value.value is None) for r in vals) \
+                and not any(isinstance(x, (ast.Yield, ast.YieldFrom)) for x in _walk_fn(n)):
+            n.body = self._g13(n.body)
+        return n
+
+    visit_AsyncFunctionDef = visit_FunctionDef
+
+    def _g13(self, body):
+        for i, st in enumerate(body):
+            if isinstance(st, ast.If) and not st.orelse and len(st.body) == 1 and isinstance(st.body[0], ast.Return) and i + 1 < len(body):
+                rest = self._g13(body[i + 1:])
+                t = st.test
+                neg = t.operand if isinstance(t, ast.UnaryOp) and isinstance(t.op, ast.Not) else ast.UnaryOp(op=ast.Not(), operand=t)
+                return body[:i] + [ast.copy_location(ast.If(test=neg, body=rest, orelse=[]), st)]
+        # a trailing bare `return` is redundant
+        if len(body) > 1 and isinstance(body[-1], ast.Return) and (body[-1].value is None):
+            return body[:-1]
+        return body
 
     def visit_Match(self, n: ast.Match):
         self.generic_visit(n)
@@ -522,7 +573,8 @@ def _no_intervening_mutation(blk: list[ast.stmt], st: ast.stmt, name: str, clash
     if isinstance(tail, (ast.If, ast.While)):
         uses_in_test = any(isinstance(n, ast.Name) and n.id == name for n in ast.walk(tail.test))
         uses_in_body = any(isinstance(n, ast.Name) and n.id == name for b in (tail.body, tail.orelse) for s_ in b for n in ast.walk(s_))
-        return uses_in_test and not uses_in_body
+        if isinstance(tail, ast.If) and uses_in_test and not uses_in_body:
+            return True
     return not _mutates([tail], clash)
 
 
@@ -599,6 +651,54 @@ def _recover_renames(fn: ast.FunctionDef, ref_locals: list[str], log: list[str])
         return
     _Rename(mapping).visit(fn)
     log.append("renamed back: " + ", ".join(f"{a}->{b}" for a, b in mapping.items()))
+
+
+def _unroll_const_loops(fn: ast.FunctionDef, log: list[str]) -> bool:
+    """G11 (in place): `for v in (<constants>): body` (at most 8 constants, no break/continue/else, v not re-bound, v and the names the body
+    binds not used outside the loop) is unrolled; the names bound in the body get one copy per iteration"""
+    changed = False
+    for parent in list(_walk_fn(fn)) + [fn]:
+        for fld in ("body", "orelse", "finalbody"):
+            blk = getattr(parent, fld, None)
+            if not (isinstance(blk, list) and blk and isinstance(blk[0], ast.stmt)):
+                continue
+            i = 0
+            while i < len(blk):
+                lp = blk[i]
+                i += 1
+                if not (isinstance(lp, ast.For) and not lp.orelse and isinstance(lp.target, ast.Name) and isinstance(lp.iter, (ast.Tuple, ast.List))
+                        and 1 <= len(lp.iter.elts) <= 8 and all(isinstance(e, ast.Constant) for e in lp.iter.elts)):
+                    continue
+                inner = [x for st in lp.body for x in ast.walk(st)]
+                if any(isinstance(x, (ast.Break, ast.Continue, ast.FunctionDef, ast.Lambda, ast.Return)) for x in inner):
+                    continue
+                v = lp.target.id
+                bound = {x.id for x in inner if isinstance(x, ast.Name) and isinstance(x.ctx, ast.Store)}
+                if v in bound:
+                    continue
+                inner_ids = {id(x) for x in inner} | {id(lp.target)}
+                # occurrences inside other loops that re-bind the same loop variable do not observe this loop's variable
+                rebound_elsewhere = set()
+                for other in _walk_fn(fn):
+                    if isinstance(other, ast.For) and other is not lp and isinstance(other.target, ast.Name) and other.target.id == v:
+                        rebound_elsewhere |= {id(x) for st_ in other.body for x in ast.walk(st_) if isinstance(x, ast.Name) and x.id == v}
+                        rebound_elsewhere.add(id(other.target))
+                outside = {x.id for x in _walk_fn(fn) if isinstance(x, ast.Name) and id(x) not in inner_ids and id(x) not in rebound_elsewhere}
+                if v in outside or (bound & outside):
+                    continue
+                out = []
+                for k, c in enumerate(lp.iter.elts):
+                    body = copy.deepcopy(lp.body)
+                    mod = ast.Module(body=body, type_ignores=[])
+                    _Subst({v: c}).visit(mod)
+                    if bound:
+                        _Rename({b: f"{b}__{k}" for b in bound}).visit(mod)
+                    out.extend(mod.body)
+                blk[i - 1:i] = out
+                i = i - 1 + len(out)
+                changed = True
+                log.append(f"unrolled loop over {len(lp.iter.elts)} constants in {fn.name}")
+    return changed
 
 
 def _recover_renames_by_position(fn: ast.FunctionDef, ref_locals: list[str], log: list[str]) -> None:
@@ -929,6 +1029,8 @@ def normalize_module(tree: ast.Module, modname: str, log: list[str] | None = Non
             rl = ref[q]["locals"]
             _recover_renames_by_position(f, rl, log)
             _propagate_new_locals(f, rl, log)
+            if _unroll_const_loops(f, log):
+                _propagate_new_locals(f, rl, log)
             _recover_renames(f, rl, log)
     for _ in range(4):
         before = ast.dump(tree)
